@@ -13,7 +13,7 @@ LEVEL = "fault_enumeration"
 RULE = ("encode: _encode_encrypted_request(counter, payload) for every payload length 0..300 (all 16 residues), random 32-byte "
         "keys and counters, parsed by the independent reference (marker, size == len-8, type 6, pad nibble, AES-CBC zero IV, SHA-256 "
         "tag over header+plaintext, counter, minimal padding); decode: reference-built encrypted responses for every length through "
-        "_process_packet must yield exactly the payload; wire: both directions through LAN.send on an authenticated simulated V3 "
+        "_process_packet must yield exactly the payload, and through the connection's receive path (data_received in 1-4 segments, then read(); also responses searched to contain 83 70 inside ciphertext/tag, cut around that position) together with a following response; wire: both directions through LAN.send on an authenticated simulated V3 "
         "connection; tamper (the genuine response is accepted on the same protocol object before and between the altered copies): every single-bit flip of header, ciphertext and tag of a response (one length per residue) must give "
         "ProtocolError from _process_packet (type-nibble flips judged at LAN.send level, where marker/size flips may also end in "
         "TimeoutError because no packet is ever framed). distinct = (kind, length, counter/bit); non-trivial = all")
@@ -40,6 +40,24 @@ def generate(ctx, rng):
             yield ("enc", L, k), {"kind": "enc", "key": key, "payload": rng.randbytes(L), "counter": ctr}
             yield ("dec", L, k), {"kind": "dec", "key": key, "payload": rng.randbytes(L), "counter": rng.randrange(65536),
                                   "pad": rng.randbytes(v3.pad_len(L))}
+    # the receive path as a connection uses it: data_received (whole, or cut in 1-2 places) then read()
+    for L in range(301):
+        for k in range(1 if quick else 4):
+            yield ("rx", L, k), {"kind": "rx", "key": rng.randbytes(32), "payload": rng.randbytes(L), "counter": rng.randrange(65536),
+                                 "rseed": rng.getrandbits(32), "inner_marker": False}
+    # ... and responses whose ciphertext or tag happens to contain the start marker bytes 83 70 (searched for)
+    found = 0
+    want = 40 if quick else 600
+    tries = 0
+    while found < want and tries < 400000:
+        tries += 1
+        key, L, ctr = rng.randbytes(32), rng.randint(0, 300), rng.randrange(65536)
+        payload = rng.randbytes(L)
+        pkt = v3.build_encrypted(key, payload, ctr, v3.T_ENC_RESP)
+        if pkt.find(b"\x83\x70", 6) >= 0:
+            found += 1
+            yield ("rx-marker", found), {"kind": "rx", "key": key, "payload": payload, "counter": ctr, "rseed": rng.getrandbits(32),
+                                         "inner_marker": True}
     if not quick:
         for kk in range(3):
             key = rng.randbytes(32)
@@ -80,7 +98,7 @@ def generate(ctx, rng):
     # wire round trips
     for j in range(120 if quick else 12000):
         L = j % 200 if j < 200 else rng.randint(0, 255)
-        yield ("wire", j), {"kind": "wire", "frame": rng.randbytes(L), "responses": [rng.randbytes(rng.randint(0, 120)) for _ in range(rng.choice([1, 1, 2]))],
+        yield ("wire", j), {"kind": "wire", "frame": rng.randbytes(L), "responses": [rng.randbytes(rng.choice([rng.randint(0, 120), rng.randint(120, 260)])) for _ in range(rng.choice([1, 1, 2]))],
                             "key": rng.randbytes(32), "token": rng.randbytes(64)}
 
 
@@ -98,6 +116,8 @@ def run_case(ctx, case):
         _dec(ctx, case)
     elif kind == "session":
         _session(ctx, case)
+    elif kind == "rx":
+        _rx(ctx, case)
     elif kind == "tamper":
         _tamper(ctx, case)
     elif kind == "tamper-wire":
@@ -210,6 +230,45 @@ def _dec(ctx, case):
         mech = "decode-pad0-empty" if (pad == 0 and bytes(got) == b"" and payload) else "decode-payload-mismatch"
         ctx.violation(mech, f"authentic response of {len(payload)} payload bytes (pad {pad}) decoded to {len(got)} bytes", case,
                       {"packet": pkt, "got": bytes(got)})
+
+
+def _rx(ctx, case):
+    """An authentic response (plus a second one right behind it) through data_received in several segmentations, then read()."""
+    import random
+    from .c04 import _read_now
+    r = random.Random(case["rseed"])
+    key, payload = bytes(case["key"]), bytes(case["payload"])
+    pkt = v3.build_encrypted(key, payload, case["counter"], v3.T_ENC_RESP)
+    follow = r.randbytes(r.randint(0, 40))
+    pkt2 = v3.build_encrypted(key, follow, (case["counter"] + 1) & 0xFFFF, v3.T_ENC_RESP)
+    wire = pkt + pkt2
+    n = len(pkt)
+    cutsets = [(), (n,), (r.randint(1, n - 1),), (r.randint(1, n - 1), n), tuple(sorted(r.sample(range(1, len(wire)), 3)))]
+    if case["inner_marker"]:
+        m = pkt.find(b"\x83\x70", 6)
+        cutsets += [(m + 2,), (m + 1,), (m + 2, n), (min(n - 1, m + 3),), (m,)]
+    for cuts in cutsets:
+        k = ("rx", len(payload), key[:4], cuts)
+        proto = _proto(key)
+        got = []
+        try:
+            b = [0] + [c for c in cuts if 0 < c < len(wire)] + [len(wire)]
+            for a, e in zip(b, b[1:]):
+                proto.data_received(wire[a:e])
+            while True:
+                ok, val = _read_now(proto)
+                if not ok:
+                    break
+                got.append(bytes(val))
+        except Exception as e:  # noqa: BLE001
+            ctx.count(k, kind="rx-raised")
+            ctx.violation("decode-raises", f"receive path raised {type(e).__name__}: {e} on authentic responses (len {len(payload)}, cuts {cuts})", case)
+            continue
+        ctx.count(k, kind="rx-inner-marker" if case["inner_marker"] else "rx",
+                  sample={"payload_len": len(payload), "cuts": list(cuts), "inner_marker": case["inner_marker"]} if len(payload) in (21, 250) or case["inner_marker"] else None)
+        if got != [payload, follow]:
+            ctx.violation("receive-path-mismatch", f"authentic response of {len(payload)} bytes (packet {n} bytes) and its successor, delivered with cuts "
+                          f"{cuts}: read() returned {[len(g) for g in got]} instead of [{len(payload)}, {len(follow)}]", case, {"wire": wire})
 
 
 HEADER_BITS_TYPE = [(5, b) for b in range(4)]
